@@ -42,10 +42,14 @@ REQUIRED_BRANCHES = ['flag0', 'flag1', 'flag2', 'flag3', 'flag4', 'flag9', 'conf
                      'mode_indep', 'mode_dist', 'nonpositive_ignored', 'placeholder_ignored',
                      'limit_violated', 'limit_ok', 'conf1_violated', 'pair_ignored', 'pair_conf0', 'pair_flag4',
                      'model_corr', 'singular', 'ignored_zero_flux_nonzero_err_flag0', 'ignored_zero_flux_nonzero_err_flag9',
-                     'ignored_zero_flux_zero_err', 'ignored_inf', 'ignored_nan', 'ignored_huge_tiny']
+                     'ignored_zero_flux_zero_err', 'ignored_inf', 'ignored_nan', 'ignored_huge_tiny',
+                     'exact_tie_indep', 'exact_tie_dist', 'exact_tie_model']
 ASSUMPTIONS = ['IEEE rounding is not modelled: model comparison tolerance 1e-9 x condition number; paired real runs are '
                'compared to 1e-12 relative (they are bit-identical on the unchanged tree)',
-               'limit decisions closer than 1e-9 to the threshold are skipped (counted as margin_relaxed)',
+               'limit decisions closer than 1e-9 to the threshold are skipped (counted as margin_relaxed) - except constructed '
+               'ties (kind exact_tie: the source is a grid model given as flag-4 log fluxes, limits equal to its fluxes), where '
+               'the reported predicted flux equals the limit bit for bit: there the model is on the limit, not beyond it, and no '
+               'penalty may appear',
                'fits with fewer than 2 fitted bands of distinct extinction coefficient (distance-independent) or no '
                'fitted band (distance-dependent) are singular (outside the grids of C01/C02: every output is NaN or '
                'rounding noise): only the NaN-aware identity of paired runs (a) is checked there',
@@ -227,8 +231,73 @@ def vector_groups(seed, tier):
     return groups
 
 
+TIE_PATTERNS = [[4, 4, 2, 4, 0], [4, 3, 4, 9, 4], [2, 4, 4, 3, 4], [4, 4, 4, 4, 3]]
+N_TIE = {'quick': 8, 'thorough': 80}
+
+
+def tie_pattern(rng):
+    n = rng.randint(3, 5)
+    fl = [4, 4, rng.choice([2, 3])] + [rng.choice([4, 4, 2, 3, 0, 9]) for _ in range(n - 3)]
+    rng.shuffle(fl)
+    return fl
+
+
+def gen_tie_case(rng, patterns, exact_model):
+    """sources that ARE a model of the grid: flag-4 bands = log10 of the model's fluxes, every limit = the model's flux in
+    that band.  All residuals, A_V and scale are exactly 0 in float arithmetic, so the model lies exactly on every limit.
+    exact_model: the planted model's fluxes are 1 or 10 mJy, whose log10 the driver also computes exactly"""
+    nb = len(patterns[0])
+    for attempt in range(40):
+        case = gen_case(rng, patterns, None)
+        case['kind'] = 'exact_tie'
+        case['av'] = [-round(rng.uniform(1, 10), 1), round(rng.uniform(5, 40), 1)]
+        # one trial distance, 1 kpc: the distance the model fluxes are tabulated for (d^-2 factor exactly 1)
+        case['drange'] = [1., 1.]
+        case['theta'] = [float('%.3g' % (case['aps'][0] / 1000. * 10 ** rng.uniform(0.05, 1.5) * 1.01)) for _ in range(nb)]
+        nm = len(case['models'])
+        ok = True
+        for src in case['sources']:
+            m = rng.randrange(nm)
+            if exact_model:
+                case['models'][m] = [rng.choice([1., 10.]) for _ in range(nb)]
+            # same flux in every aperture: interpolation in aperture returns it exactly
+            case['grow'][m] = [[1.] * len(case['aps']) for _ in range(nb)]
+            src['tie'] = dict(m=m, mflux=None, le=[nice(rng, 0.01, 0.3, 2) for _ in range(nb)])
+            for j in range(nb):
+                src['lim'][j][1] = rng.choice([0.5, 0.9, 0.99, 1., round(rng.uniform(0.05, 0.95), 2)])
+        for src in case['sources']:
+            src['tie']['mflux'] = list(case['models'][src['tie']['m']])
+            if c01.singular(case, variants(src)['S']):
+                ok = False
+        if ok:
+            return case
+    return case
+
+
+def tie_cases(seed, tier, stream=PID):
+    k = 0
+    for exact_model in (True, False):
+        yield gen_tie_case(case_rng(seed, stream, 'tie%d' % k), TIE_PATTERNS, exact_model)
+        k += 1
+    for _ in range(N_TIE[tier]):
+        rng = case_rng(seed, stream, 'tie%d' % k)
+        n = rng.randint(3, 5)
+        pats = []
+        while len(pats) < 3:
+            fl = tie_pattern(rng)
+            if len(fl) == n:
+                pats.append(fl)
+        yield gen_tie_case(rng, pats, rng.random() < 0.5)
+        k += 1
+
+
 def gen_cases(seed, tier):
-    for i, (vectors, dids) in enumerate(vector_groups(seed, tier)):
+    groups = vector_groups(seed, tier)
+    n_directed = sum(1 for g in groups if g[1] is not None)
+    for i, (vectors, dids) in enumerate(groups):
+        if i == n_directed:
+            for case in tie_cases(seed, tier):
+                yield case
         rng = case_rng(seed, PID, i)
         yield gen_case(rng, vectors, dids)
 
@@ -247,11 +316,22 @@ def variants(src):
     flags = src['flags']
     nb = len(flags)
 
+    tie = src.get('tie')
+    if tie is not None:
+        # photometry that IS model `m` of the grid: flag-4 bands carry log10 of the model flux computed as the code
+        # computes it, limits carry the model flux itself -> every residual is exactly 0 in float arithmetic
+        mflux = np.array(tie['mflux'], dtype=np.float64)
+        lgm = np.log10(mflux)
+
     def build(fl, ign, conf0=False):
         flux, err = [], []
         for j in range(nb):
             f = fl[j]
-            if f == 1:
+            if tie is not None and f == 4:
+                flux.append(float(lgm[j])); err.append(tie['le'][j])
+            elif tie is not None and f in (2, 3):
+                flux.append(float(mflux[j])); err.append(0. if conf0 else src['lim'][j][1])
+            elif f == 1:
                 flux.append(src['lin'][j][0]); err.append(src['lin'][j][1])
             elif f == 4:
                 a, b = transform(*src['lin'][j])
@@ -270,6 +350,8 @@ def variants(src):
         out['conf0'] = build(flags, src['ign_a'], conf0=True)
         nolim = [0 if f in (2, 3) else f for f in flags]
         out['limits_off'] = build(nolim, src['ign_b'])
+    if tie is not None:
+        return out
     if 1 in flags:
         out['to4'] = build([4 if f == 1 else f for f in flags], src['ign_a'])
     if 4 in flags:
@@ -362,13 +444,13 @@ def log_values(s):
         elif f == 4:
             out.append((x, e))
         elif f in (2, 3):
-            out.append((math.log10(x), e))
+            out.append((float(np.log10(np.array([x], dtype=np.float64))[0]), e))
         else:
             out.append(None)
     return out
 
 
-def arithmetic(s, a, branches):
+def arithmetic(s, a, branches, tie_name=None, mode=''):
     """(e)/(d): chi2 reported = fitted squares + penalties of the limits on whose forbidden side the reported
     predicted fluxes lie.  returns (error or None, n_relaxed)"""
     lv = log_values(s)
@@ -385,6 +467,12 @@ def arithmetic(s, a, branches):
                 exp += ((lv[j][0] - pred[j]) / lv[j][1]) ** 2
             elif f in (2, 3):
                 lf, conf = lv[j]
+                if nme == tie_name and pred[j] == lf:
+                    # constructed tie: the reported model lies EXACTLY on the limit (every quantity is exactly 0 in float
+                    # arithmetic), which is not the forbidden side: no penalty, and no margin to hide behind
+                    branches.add('exact_tie_' + mode)
+                    branches.add('limit_ok')
+                    continue
                 if abs(pred[j] - lf) < 1e-9 * (1. + abs(lf)):
                     skip = True
                     break
@@ -439,6 +527,7 @@ def check_mode(case, mode, fitter, names, use_model, branches, stats):
     for vi, src in enumerate(case['sources']):
         vs = variants(src)
         S = vs['S']
+        tie_name = names[src['tie']['m']] if 'tie' in src else None
         for f in S['flags']:
             branches.add('flag%d' % f)
         for j, f in enumerate(S['flags']):
@@ -537,7 +626,7 @@ def check_mode(case, mode, fitter, names, use_model, branches, stats):
         # (d), (e) arithmetic on the reported predicted fluxes
         for k in ('S', 'conf0', 'limits_off', 'to4', 'to1'):
             if k in res:
-                err, rel = arithmetic(vs[k], res[k], branches)
+                err, rel = arithmetic(vs[k], res[k], branches, tie_name=tie_name, mode=mode)
                 stats['relaxed'] += rel
                 if err:
                     return CaseResult(False, violates=True, branches=branches, detail='%s mode, (d)/(e): %s' % (mode, err))
@@ -565,7 +654,15 @@ def check_mode(case, mode, fitter, names, use_model, branches, stats):
             for row, nme in enumerate(A['name']):
                 e = exp[names.index(nme)]
                 scale = 1. + abs(float(e['av'])) + abs(float(e['sc']))
-                if e['margin'] < 1e-7 * scale:
+                if nme == tie_name and e['margin'] == 0. and e['av'] == 0 and e['sc'] == 0:
+                    # constructed tie that is exact on the model side too (log10 of 1 and 10 are exact in the driver):
+                    # the model lies on the limit, not beyond it; its chi2 carries no penalty and is compared strictly
+                    branches.add('exact_tie_model')
+                    if e['chi2'] != 0:
+                        return CaseResult(False, violates=None, branches=branches,
+                                          detail='Lean model penalises a model lying exactly on a limit: chi2 = %r, source %r'
+                                                 % (float(e['chi2']), S))
+                elif e['margin'] < 1e-7 * scale:
                     stats['relaxed'] += 1
                     continue
                 tol = 1e-9 * max(1., e['cond'])
@@ -617,6 +714,7 @@ def search(seed, tier, disagreeing):
     groups = vector_groups(seed, 'quick')
     for i, (vectors, dids) in enumerate(groups):
         pool.append(gen_case(case_rng(seed, PID + '/search', i), vectors, dids))
+    pool.extend(tie_cases(seed, 'quick', stream=PID + '/search'))
     for case in pool:
         tried += 1
         try:
